@@ -35,6 +35,9 @@ def choose(F, X, base, cap):
     return indices, targets
 
 
+from rules import anchors as A_
+
+
 def run(F, tier):
     X = T.extractor(F)
     n = 5 if tier != "thorough" else 24
@@ -43,7 +46,8 @@ def run(F, tier):
     segs, maps, renders, asserts = skeleton.assemble(F, X, indices, targets)
     ok, diags = W.check(F, segs, "e4-" + tier)
     allsites = {(e.fn, e.ev.order): e for e in T.inline(X, T.ROOT) if e.kind == "emit"
-                and not (len(e.parts) == 1 and e.parts[0][0] == "hole" and e.parts[0][1][0] == "const")}
+                and not (len(e.parts) == 1 and e.parts[0][0] == "hole" and e.parts[0][1][0] == "const")
+                and e.fn not in (A_.HEADER_WRITER, A_.HELPERS_WRITER)}
     covered = set()
     for r in renders.values():
         covered |= r.covered
